@@ -91,30 +91,30 @@ func canonEvents(ev []drive.Event) string {
 }
 
 var c15Srcs = map[string]string{
-	"ok-simple":     "a = 1 + 2\nadd_key(r, a)\np(a)\n",
-	"ok-grok":       "add_pattern(\"pp\", \"[a-z]+\")\nok = grok(_, \"%{pp:w} %{INT:n:int}\")\np(ok, w, n)\n",
-	"ok-loop":       "s = \"\"\nfor i = 0; i < 4; i = i + 1 {\n  s = s + \"x\"\n  if i == 2 { continue }\n  add_key(cnt, i)\n}\np(s, i)\n",
-	"ok-containers": "l = [1, [2, 3], {\"k\": \"v\"}]\nm = {\"a\": l}\nm[\"a\"][0] = 9\np(l, m, l[1:], len(m))\nfor e in l { p(e) }\n",
-	"fail-mid-loop": "for i = 0; i < 5; i = i + 1 {\n  add_key(seen, i)\n  if i == 2 { x = 1 / (i - 2) }\n}\np(\"unreachable\")\n",
-	"fail-type":     "a = \"s\" - 1\np(a)\n",
-	"exit-early":    "add_key(before, 1)\nif true { exit() }\nadd_key(after, 1)\np(\"unreachable\")\n",
-	"use-ok":        "add_key(m1, 1)\nuse(\"lib.p\")\np(from_lib)\n",
-	"use-fail":      "add_key(m1, 1)\nuse(\"badrun.p\")\np(\"unreachable\")\n",
-	"void-after-val": "x = len(\"abc\")\ny = void()\nz = len(\"\")\np(x, y, z)\nv = t(1, 5)\nw = void()\np(v, w)\n",
-	"regs-full":     "r = six()\np(r)\nq = void()\np(q)\nn = len(\"ab\")\np(n)\n",
-	"private":       "p(priv())\n",
-	"infinite":      "for ;; {\n  add_key(spins, 1)\n  p(1)\n}\n",
-	"nested-infinite": "for i = 0; i < 3; i = i + 1 {\n  for ;; {\n    p(i)\n  }\n}\n",
-	"strfmt-print":  "strfmt(out, \"%v|%5.1f|%s\", 1, 2.5, \"x\")\nprintf(\"%d-%s\\n\", 7, \"p\")\ncast(out, \"str\")\np(out)\n",
-	"time":          "add_key(ts, \"2021-05-27 06:54:14.760 UTC\")\ndefault_time(ts, \"Asia/Tokyo\")\nadd_key(ts2, 1700000000)\ndatetime(ts2, \"s\", \"RFC3339\")\np(ts2)\n",
-	"xml-sql":       "add_key(doc, \"<a><b>x</b></a>\")\nxml(doc, \"/a/b\", got)\nadd_key(q, \"select 1 from t where a = 'b'\")\nsql_cover(q)\np(got, q)\n",
-	"json":          "j = load_json(\"{\\\"a\\\": [1, 2.5, {\\\"b\\\": null}]}\")\np(j, j[\"a\"][-1], len(j))\nadd_key(jj, j)\n",
-	"rename-tag":    "set_tag(tt, \"v\")\nrename(t2, tt)\nset_tag(f1)\ndrop_key(f2)\nset_measurement(\"mm\")\np(t2, f1, f2)\n",
-	"fail-nested-vars": "a = \"leak-a\"\ns = \"leak-s\"\nw = \"leak-w\"\nn = 99\nadd_pattern(\"leakp\", \"x+\")\nif true {\n  for i = 0; i < 2; i = i + 1 {\n    q = 1 / (1 - i)\n  }\n}\np(\"unreachable\")\n",
+	"ok-simple":          "a = 1 + 2\nadd_key(r, a)\np(a)\n",
+	"ok-grok":            "add_pattern(\"pp\", \"[a-z]+\")\nok = grok(_, \"%{pp:w} %{INT:n:int}\")\np(ok, w, n)\n",
+	"ok-loop":            "s = \"\"\nfor i = 0; i < 4; i = i + 1 {\n  s = s + \"x\"\n  if i == 2 { continue }\n  add_key(cnt, i)\n}\np(s, i)\n",
+	"ok-containers":      "l = [1, [2, 3], {\"k\": \"v\"}]\nm = {\"a\": l}\nm[\"a\"][0] = 9\np(l, m, l[1:], len(m))\nfor e in l { p(e) }\n",
+	"fail-mid-loop":      "for i = 0; i < 5; i = i + 1 {\n  add_key(seen, i)\n  if i == 2 { x = 1 / (i - 2) }\n}\np(\"unreachable\")\n",
+	"fail-type":          "a = \"s\" - 1\np(a)\n",
+	"exit-early":         "add_key(before, 1)\nif true { exit() }\nadd_key(after, 1)\np(\"unreachable\")\n",
+	"use-ok":             "add_key(m1, 1)\nuse(\"lib.p\")\np(from_lib)\n",
+	"use-fail":           "add_key(m1, 1)\nuse(\"badrun.p\")\np(\"unreachable\")\n",
+	"void-after-val":     "x = len(\"abc\")\ny = void()\nz = len(\"\")\np(x, y, z)\nv = t(1, 5)\nw = void()\np(v, w)\n",
+	"regs-full":          "r = six()\np(r)\nq = void()\np(q)\nn = len(\"ab\")\np(n)\n",
+	"private":            "p(priv())\n",
+	"infinite":           "for ;; {\n  add_key(spins, 1)\n  p(1)\n}\n",
+	"nested-infinite":    "for i = 0; i < 3; i = i + 1 {\n  for ;; {\n    p(i)\n  }\n}\n",
+	"strfmt-print":       "strfmt(out, \"%v|%5.1f|%s\", 1, 2.5, \"x\")\nprintf(\"%d-%s\\n\", 7, \"p\")\ncast(out, \"str\")\np(out)\n",
+	"time":               "add_key(ts, \"2021-05-27 06:54:14.760 UTC\")\ndefault_time(ts, \"Asia/Tokyo\")\nadd_key(ts2, 1700000000)\ndatetime(ts2, \"s\", \"RFC3339\")\np(ts2)\n",
+	"xml-sql":            "add_key(doc, \"<a><b>x</b></a>\")\nxml(doc, \"/a/b\", got)\nadd_key(q, \"select 1 from t where a = 'b'\")\nsql_cover(q)\np(got, q)\n",
+	"json":               "j = load_json(\"{\\\"a\\\": [1, 2.5, {\\\"b\\\": null}]}\")\np(j, j[\"a\"][-1], len(j))\nadd_key(jj, j)\n",
+	"rename-tag":         "set_tag(tt, \"v\")\nrename(t2, tt)\nset_tag(f1)\ndrop_key(f2)\nset_measurement(\"mm\")\np(t2, f1, f2)\n",
+	"fail-nested-vars":   "a = \"leak-a\"\ns = \"leak-s\"\nw = \"leak-w\"\nn = 99\nadd_pattern(\"leakp\", \"x+\")\nif true {\n  for i = 0; i < 2; i = i + 1 {\n    q = 1 / (1 - i)\n  }\n}\np(\"unreachable\")\n",
 	"fail-in-use-branch": "x = \"caller-private\"\nok = \"stale-ok\"\nif true {\n  use(\"badrun.p\")\n}\n",
-	"reader":        "p(a, s, w, n, x, ok, q, i, b)\nadd_key(seen_a, a)\nadd_key(seen_x, x)\n",
-	"reader-use":    "use(\"reader2.p\")\np(a, x)\n",
-	"reader2":       "p(a, s, w, n, x, ok)\n",
+	"reader":             "p(a, s, w, n, x, ok, q, i, b)\nadd_key(seen_a, a)\nadd_key(seen_x, x)\n",
+	"reader-use":         "use(\"reader2.p\")\np(a, x)\n",
+	"reader2":            "p(a, s, w, n, x, ok)\n",
 	// the same grok pattern text under different script-local alias definitions
 	"grok-alias-digits":  "add_pattern(\"tok\", \"[0-9]+\")\nif true {\n  ok = grok(_, \"%{tok:w}\")\n  p(ok, w)\n}\n",
 	"grok-alias-letters": "add_pattern(\"tok\", \"[a-z]+\")\nif true {\n  ok = grok(_, \"%{tok:w}\")\n  p(ok, w)\n}\n",
@@ -124,16 +124,20 @@ var c15Srcs = map[string]string{
 	"grok-alias-shadow":  "add_pattern(\"tok\", \"[0-9]+\")\nif true {\n  add_pattern(\"tok\", \"a\")\n  ok = grok(_, \"%{tok:w}\")\n  p(ok, w)\n}\nok = grok(_, \"%{tok:w}\")\np(ok, w)\n",
 	"grok-global-only":   "if true {\n  ok = grok(_, \"%{WORD:w} %{INT:n}\")\n  p(ok, w, n)\n}\n",
 	// renames onto names that already exist (the replaced key's bookkeeping object goes somewhere), then scripts that create and read many keys
-	"rename-onto-field": "rename(f2, f1)\np(f1, f2)\n",
-	"rename-onto-tag":   "rename(tg, f2)\np(tg, f2)\nadd_key(n9, 1)\n",
+	"rename-onto-field":     "rename(f2, f1)\np(f1, f2)\n",
+	"rename-onto-tag":       "rename(tg, f2)\np(tg, f2)\nadd_key(n9, 1)\n",
 	"rename-tag-onto-field": "rename(f1, tg)\np(f1, tg)\nset_tag(message)\nrename(f2, message)\n",
-	"rename-chain":      "add_key(x1, 1)\nadd_key(x2, \"two\")\nset_tag(x3, \"three\")\nrename(x2, x1)\nrename(x3, x2)\nrename(f1, x3)\ndrop_key(f1)\np(x1, x2, x3, f1)\n",
-	"many-keys":         "add_key(n1, 5)\nadd_key(n2, 5)\nset_tag(n3, \"t\")\nadd_key(n4, 2.5)\nadd_key(n5, true)\nset_tag(n6, \"u\")\np(n1, n2, n3, n4, n5, n6, f1, f2, tg, message)\ncast(n2, \"str\")\ncast(n4, \"int\")\nrename(n7, n3)\np(get_key(n2), get_key(n4), get_key(n7), get_key(n5))\n",
+	"rename-chain":          "add_key(x1, 1)\nadd_key(x2, \"two\")\nset_tag(x3, \"three\")\nrename(x2, x1)\nrename(x3, x2)\nrename(f1, x3)\ndrop_key(f1)\np(x1, x2, x3, f1)\n",
+	"many-keys":             "add_key(n1, 5)\nadd_key(n2, 5)\nset_tag(n3, \"t\")\nadd_key(n4, 2.5)\nadd_key(n5, true)\nset_tag(n6, \"u\")\np(n1, n2, n3, n4, n5, n6, f1, f2, tg, message)\ncast(n2, \"str\")\ncast(n4, \"int\")\nrename(n7, n3)\np(get_key(n2), get_key(n4), get_key(n7), get_key(n5))\n",
 	// values built from constant literals and then written in place: a second run of the same loaded script starts from the literals again
 	"nested-literals":      "a = [[1, 2], [3]]\na[0][0] += 10\nm = {\"k\": [1, 2], \"j\": {\"d\": 0}}\nm[\"k\"][1] = m[\"k\"][1] * 2\nm[\"j\"][\"d\"] += 1\nfor i = 0; i < 2; i = i + 1 {\n  g = [{\"n\": 0}, [0]]\n  g[0][\"n\"] += 5\n  g[1][0] = g[0][\"n\"] + i\n  p(g)\n}\np(a, m)\n",
 	"nested-literals-fail": "a = [[1, 2], [3]]\na[0][1] = a[0][1] + 40\na[1][0] = \"x\"\np(a)\nq = a[1][0] - 1\np(\"unreachable\")\n",
-	"lib":           "add_key(from_lib, \"lib\")\nb = 2\n",
-	"badrun":        "add_key(in_bad, 1)\nboom()\n",
+	// SQL whose string literals end in a backslash / contain an escaped quote / are ambiguous between the two readings
+	"sql-backslash-literal": "add_key(q, \"select * from t where p = 'C:\\\\'\")\nsql_cover(q)\np(q)\n",
+	"sql-backslash-escape":  "add_key(q, \"select * from t where p = 'it\\\\'s' and a = 1\")\nsql_cover(q)\np(q)\n",
+	"sql-backslash-both":    "add_key(q, \"SELECT 'a\\\\' , b -- '\")\nsql_cover(q)\nadd_key(q2, \"select 1 from t where a = 'b'\")\nsql_cover(q2)\np(q, q2)\n",
+	"lib":                   "add_key(from_lib, \"lib\")\nb = 2\n",
+	"badrun":                "add_key(in_bad, 1)\nboom()\n",
 }
 
 var c15Invalid = []string{"a b", "x = 0x", "-1e", "for a in 1e {}", "x = \"unterminated", "x = 'a\\q'", "if { }", "x = [1, 2", "))", "x = 1 / 0", "f(", "x = \"\"\"abc", "`raw", "a = \xff\xfe", "x = 1 +", "for ;; ", "{", "x = a[1:2:3:4]", "else {}", "x = 99999999999999999999999e9999"}
@@ -234,7 +238,7 @@ func c15Pool(seed int64) []c15Op {
 	var ops []c15Op
 	for _, name := range []string{"ok-simple", "ok-grok", "ok-loop", "ok-containers", "fail-mid-loop", "fail-type", "exit-early", "use-ok", "use-fail",
 		"void-after-val", "regs-full", "strfmt-print", "time", "xml-sql", "json", "rename-tag", "fail-nested-vars", "fail-in-use-branch", "reader", "reader-use",
-		"nested-literals", "nested-literals", "nested-literals-fail", "rename-onto-field", "rename-onto-tag", "rename-tag-onto-field", "rename-chain", "many-keys", "many-keys",
+		"sql-backslash-literal", "sql-backslash-escape", "sql-backslash-both", "sql-backslash-both", "nested-literals", "nested-literals", "nested-literals-fail", "rename-onto-field", "rename-onto-tag", "rename-tag-onto-field", "rename-chain", "many-keys", "many-keys",
 		"grok-alias-digits", "grok-alias-letters", "grok-alias-top", "grok-alias-loop", "grok-alias-inner", "grok-alias-shadow", "grok-global-only"} {
 		name := name
 		ops = append(ops, c15Op{"run:" + name, func(st *c15State) string { return c15RunV1(st, name, &drive.RunState{Budget: 20000}) }})
